@@ -4,47 +4,192 @@ Reading the Boolean table predicates as propositions, and universal facts about 
 -/
 namespace Kio
 
+/-! ### helpers: Boolean equalities read back as equations -/
+
+theorem EType.beq_iff (a b : EType) : a.beq b = true ↔ a = b := by
+  cases a <;> cases b <;> simp [EType.beq]
+
+theorem ModKey.eq_of_beq {a b : ModKey} (h : a.beq b = true) : a = b := by
+  cases a; cases b
+  simp [ModKey.beq, EType.beq_iff] at h
+  simp [h]
+
+theorem isOk_eq {x : Except IndexErr Nat} {n : Nat} (h : isOk x n = true) : x = .ok n := by
+  unfold isOk at h
+  split at h
+  · simp at h; subst h; rfl
+  · simp at h
+
 /-! ### the index model rejects everything that is not in its tables (C09, unbounded) -/
 
 /-- any key that is not in `api_key_map` — any integer at all — is reported as unknown API key -/
 theorem Tables.nameFromKey_unknown (t : Tables) (k : Int) (h : ∀ e ∈ t.apiKeys, e.1 ≠ k) :
     t.nameFromKey k = .error .unknownApiKey := by
-  sorry
+  unfold Tables.nameFromKey
+  have : t.apiKeys.find? (fun e => e.1 == k) = none := by
+    rw [List.find?_eq_none]; intro e he; simpa using h e he
+  rw [this]
 
 /-- a key in the map resolves to a name the map associates with it -/
 theorem Tables.nameFromKey_ok (t : Tables) (k : Int) (n : Nat) (h : t.nameFromKey k = .ok n) :
     (k, n) ∈ t.apiKeys := by
-  sorry
+  unfold Tables.nameFromKey at h
+  split at h
+  · next e he =>
+    have hm := List.mem_of_find?_eq_some he
+    have hp := List.find?_some he
+    simp at hp
+    injection h with h
+    subst hp; subst h
+    exact hm
+  · cases h
+
+theorem Tables.nameFromKey_err (t : Tables) (k : Int) (e : IndexErr) (h : t.nameFromKey k = .error e) :
+    e = .unknownApiKey := by
+  unfold Tables.nameFromKey at h
+  split at h
+  · cases h
+  · injection h with h; exact h.symm
 
 /-- lookups only ever return leaves that are in the table under that name, version and type -/
 theorem Tables.entityPath_ok (t : Tables) (name : Nat) (version : Int) (et : EType) (leaf : IndexLeaf)
     (h : t.entityPath name version et = .ok leaf) :
     ∃ n ∈ t.index, n.name = name ∧ ∃ v ∈ n.versions, v.1 = version ∧ leaf ∈ v.2 ∧ leaf.etype = et := by
-  sorry
+  unfold Tables.entityPath at h
+  split at h
+  · cases h
+  · next n hn =>
+    split at h
+    · cases h
+    · next v hv =>
+      split at h
+      · cases h
+      · next l hl =>
+        injection h with h; subst h
+        have h1 := List.find?_some hn
+        have h2 := List.find?_some hv
+        have h3 := List.find?_some hl
+        simp at h1 h2
+        rw [EType.beq_iff] at h3
+        exact ⟨n, List.mem_of_find?_eq_some hn, h1, v, List.mem_of_find?_eq_some hv, h2,
+          List.mem_of_find?_eq_some hl, h3⟩
+
+theorem Tables.entityPath_err (t : Tables) (name : Nat) (version : Int) (et : EType) (e : IndexErr)
+    (h : t.entityPath name version et = .error e) : e = .unknownEntity := by
+  unfold Tables.entityPath at h
+  split at h
+  · injection h with h; exact h.symm
+  · split at h
+    · injection h with h; exact h.symm
+    · split at h
+      · injection h with h; exact h.symm
+      · cases h
 
 /-- a (name, version, type) with no leaf in the table is an unknown entity — for every name,
     every integer version and every entity type -/
 theorem Tables.entityPath_unknown (t : Tables) (name : Nat) (version : Int) (et : EType)
     (h : ∀ n ∈ t.index, n.name = name → ∀ v ∈ n.versions, v.1 = version → ∀ l ∈ v.2, l.etype ≠ et) :
     t.entityPath name version et = .error .unknownEntity := by
-  sorry
+  cases hp : t.entityPath name version et with
+  | error e => rw [Tables.entityPath_err t name version et e hp]
+  | ok leaf =>
+    obtain ⟨n, hn, hnn, v, hv, hvv, hl, hle⟩ := Tables.entityPath_ok t name version et leaf hp
+    exact absurd hle (h n hn hnn v hv hvv leaf hl)
+
+theorem Tables.loadEntitySchema_err (t : Tables) (name : Nat) (version : Int) (et : EType) (e : IndexErr)
+    (h : t.loadEntitySchema name version et = .error e) : e = .unknownEntity ∨ e = .importFailed := by
+  unfold Tables.loadEntitySchema at h
+  rcases bind_err h with h | ⟨a, _, h⟩
+  · left; exact Tables.entityPath_err _ _ _ _ _ h
+  · right
+    split at h
+    · cases h
+    · injection h with h; exact h.symm
 
 /-- the only errors the payload loaders produce are the two documented ones (plus an import
     failure when a path does not resolve, which `c09` excludes) -/
 theorem Tables.loadPayloadSchema_err (t : Tables) (k version : Int) (et : EType) (e : IndexErr)
     (h : t.loadPayloadSchema k version et = .error e) :
     e = .unknownApiKey ∨ e = .unknownEntity ∨ e = .importFailed := by
-  sorry
+  unfold Tables.loadPayloadSchema at h
+  rcases bind_err h with h | ⟨a, _, h⟩
+  · left; exact Tables.nameFromKey_err _ _ _ h
+  · right; exact Tables.loadEntitySchema_err _ _ _ _ _ h
 
 /-! ### C08 read as a proposition -/
 
 theorem Tables.allClasses_iff (t : Tables) (p : ClassInfo → Bool) :
     t.allClasses p = true ↔ ∀ c ∈ t.classes, p c = true := by
-  sorry
+  unfold Tables.allClasses Tables.classes
+  simp only [List.all_eq_true, List.mem_flatten]
+  constructor
+  · rintro h c ⟨l, hl, hc⟩; exact h l hl c hc
+  · intro h l hl c hc; exact h c ⟨l, hl, hc⟩
 
 theorem Tables.allModules_iff (t : Tables) (p : ModuleInfo → Bool) :
     t.allModules p = true ↔ ∀ m ∈ t.modules, p m = true := by
-  sorry
+  unfold Tables.allModules Tables.modules
+  simp only [List.all_eq_true, List.mem_flatten, List.mem_map]
+  constructor
+  · rintro h m ⟨l, ⟨g, hg, rfl⟩, hm⟩; exact h g hg m hm
+  · intro h g hg m hm; exact h m ⟨_, ⟨g, hg, rfl⟩, hm⟩
+
+theorem Tables.mem_classes_of_cls? (t : Tables) {i : Nat} {c : ClassInfo} (h : t.cls? i = some c) :
+    c ∈ t.classes := by
+  unfold Tables.cls? chunkGet? at h
+  unfold Tables.classes
+  rw [Option.bind_eq_some_iff] at h
+  obtain ⟨ch, h1, h2⟩ := h
+  exact List.mem_flatten.2 ⟨ch, List.mem_of_getElem? h1, List.mem_of_getElem? h2⟩
+
+theorem Tables.c08_class (t : Tables) (h : t.c08 = true) (c : ClassInfo) (hc : c ∈ t.classes) :
+    headerOk t.headerIdxs c = true ∧ t.pairingOk c = true := by
+  unfold Tables.c08 at h
+  simp only [Bool.and_eq_true] at h
+  have := (Tables.allClasses_iff t _).1 h.2 c hc
+  simpa only [Bool.and_eq_true] using this
+
+theorem Tables.pairingOk_request (t : Tables) (c : ClassInfo) (hr : c.etype = .request)
+    (h : t.pairingOk c = true) :
+    ∃ ri r, t.responseFromRequest c = .ok ri ∧ t.cls? ri = some r ∧ r.etype = .response ∧
+      r.apiKey = c.apiKey ∧ r.flexible = c.flexible ∧ r.version = c.version ∧
+      t.requestFromResponse r = .ok c.idx := by
+  unfold Tables.pairingOk at h
+  rw [hr] at h
+  simp only at h
+  split at h
+  · next ri hri =>
+    split at h
+    · next r hr' =>
+      simp only [Bool.and_eq_true, beq_iff_eq, EType.beq_iff] at h
+      exact ⟨ri, r, hri, hr', h.1.1.1.1, h.1.1.1.2, h.1.1.2, h.1.2, isOk_eq h.2⟩
+    · cases h
+  · cases h
+
+theorem Tables.pairingOk_response (t : Tables) (c : ClassInfo) (hr : c.etype = .response)
+    (h : t.pairingOk c = true) :
+    ∃ ri r, t.requestFromResponse c = .ok ri ∧ t.cls? ri = some r ∧ r.etype = .request ∧
+      r.apiKey = c.apiKey ∧ r.flexible = c.flexible ∧ r.version = c.version ∧
+      t.responseFromRequest r = .ok c.idx := by
+  unfold Tables.pairingOk at h
+  rw [hr] at h
+  simp only at h
+  split at h
+  · next ri hri =>
+    split at h
+    · next r hr' =>
+      simp only [Bool.and_eq_true, beq_iff_eq, EType.beq_iff] at h
+      exact ⟨ri, r, hri, hr', h.1.1.1.1, h.1.1.1.2, h.1.1.2, h.1.2, isOk_eq h.2⟩
+    · cases h
+  · cases h
+
+theorem Tables.responseFromRequest_congr (t : Tables) {a b : ClassInfo} (hk : a.apiKey = b.apiKey)
+    (hv : a.version = b.version) : t.responseFromRequest a = t.responseFromRequest b := by
+  unfold Tables.responseFromRequest; rw [hk, hv]
+
+theorem Tables.requestFromResponse_congr (t : Tables) {a b : ClassInfo} (hk : a.apiKey = b.apiKey)
+    (hv : a.version = b.version) : t.requestFromResponse a = t.requestFromResponse b := by
+  unfold Tables.requestFromResponse; rw [hk, hv]
 
 /-- what `c08` says about a request class: it advertises the header the Kafka rule names, and
     the index pairs it with a response class of the same key, version and flexibility, from
@@ -57,7 +202,53 @@ theorem Tables.c08_request (t : Tables) (h : t.c08 = true) (c : ClassInfo) (hc :
     (∃ r, t.responseFromRequest c = .ok r.idx ∧ t.cls? r.idx = some r ∧ r.etype = .response ∧
         r.apiKey = c.apiKey ∧ r.flexible = c.flexible ∧ r.version = c.version ∧
         t.requestFromResponse r = .ok c.idx) := by
-  sorry
+  obtain ⟨hh, hp⟩ := Tables.c08_class t h c hc
+  constructor
+  · unfold headerOk at hh
+    rw [hr] at hh
+    simp only at hh
+    split at hh
+    · next hx i hexp hidx =>
+      simp only [beq_iff_eq] at hh
+      subst hh
+      unfold expectedHeaderIdx at hexp
+      rw [hr] at hexp
+      cases hk : c.apiKey with
+      | none => rw [hk] at hexp; cases hexp
+      | some k =>
+        rw [hk] at hexp
+        simp only at hexp
+        refine ⟨k, ?_⟩
+        have key : ∀ v, v = 0 ∨ v = 1 ∨ v = 2 → t.headerIdxs.1.getD v none = some hx →
+            ∃ hcls, t.headerClass true v = some hcls ∧ some hx = some hcls.idx := by
+          intro v hv hg
+          rcases hv with rfl | rfl | rfl <;>
+          · simp only [Tables.headerIdxs, List.map_cons, List.getD_cons_zero, List.getD_cons_succ,
+              Option.map_eq_some_iff] at hg
+            obtain ⟨a, ha, hb⟩ := hg
+            exact ⟨a, ha, by rw [hb]⟩
+        have hv : Spec.requestHeaderVersion k c.version c.flexible = 0 ∨
+            Spec.requestHeaderVersion k c.version c.flexible = 1 ∨
+            Spec.requestHeaderVersion k c.version c.flexible = 2 := by
+          unfold Spec.requestHeaderVersion
+          split
+          · exact Or.inl rfl
+          · split
+            · exact Or.inr (Or.inr rfl)
+            · exact Or.inr (Or.inl rfl)
+        obtain ⟨hcls, h1, h2⟩ := key _ hv hexp
+        exact ⟨hcls, rfl, h1, hidx.trans h2⟩
+    · cases hh
+  · obtain ⟨ri, r, h1, h2, h3, h4, h5, h6, h7⟩ := Tables.pairingOk_request t c hr hp
+    have hrm := Tables.mem_classes_of_cls? t h2
+    obtain ⟨ri', r', g1, g2, g3, g4, g5, g6, g7⟩ :=
+      Tables.pairingOk_response t r h3 (Tables.c08_class t h r hrm).2
+    have : t.responseFromRequest r' = t.responseFromRequest c :=
+      Tables.responseFromRequest_congr t (g4.trans h4) (g6.trans h6)
+    rw [this, h1] at g7
+    injection g7 with g7
+    subst g7
+    exact ⟨r, h1, h2, h3, h4, h5, h6, h7⟩
 
 theorem Tables.c08_response (t : Tables) (h : t.c08 = true) (c : ClassInfo) (hc : c ∈ t.classes)
     (hr : c.etype = .response) :
@@ -67,7 +258,52 @@ theorem Tables.c08_response (t : Tables) (h : t.c08 = true) (c : ClassInfo) (hc 
     (∃ r, t.requestFromResponse c = .ok r.idx ∧ t.cls? r.idx = some r ∧ r.etype = .request ∧
         r.apiKey = c.apiKey ∧ r.flexible = c.flexible ∧ r.version = c.version ∧
         t.responseFromRequest r = .ok c.idx) := by
-  sorry
+  obtain ⟨hh, hp⟩ := Tables.c08_class t h c hc
+  constructor
+  · unfold headerOk at hh
+    rw [hr] at hh
+    simp only at hh
+    split at hh
+    · next hx i hexp hidx =>
+      simp only [beq_iff_eq] at hh
+      subst hh
+      unfold expectedHeaderIdx at hexp
+      rw [hr] at hexp
+      cases hk : c.apiKey with
+      | none => rw [hk] at hexp; cases hexp
+      | some k =>
+        rw [hk] at hexp
+        simp only at hexp
+        refine ⟨k, ?_⟩
+        have key : ∀ v, v = 0 ∨ v = 1 → t.headerIdxs.2.getD v none = some hx →
+            ∃ hcls, t.headerClass false v = some hcls ∧ some hx = some hcls.idx := by
+          intro v hv hg
+          rcases hv with rfl | rfl <;>
+          · simp only [Tables.headerIdxs, List.map_cons, List.getD_cons_zero, List.getD_cons_succ,
+              Option.map_eq_some_iff] at hg
+            obtain ⟨a, ha, hb⟩ := hg
+            exact ⟨a, ha, by rw [hb]⟩
+        have hv : Spec.responseHeaderVersion k c.flexible = 0 ∨
+            Spec.responseHeaderVersion k c.flexible = 1 := by
+          unfold Spec.responseHeaderVersion
+          split
+          · exact Or.inl rfl
+          · split
+            · exact Or.inr rfl
+            · exact Or.inl rfl
+        obtain ⟨hcls, h1, h2⟩ := key _ hv hexp
+        exact ⟨hcls, rfl, h1, hidx.trans h2⟩
+    · cases hh
+  · obtain ⟨ri, r, h1, h2, h3, h4, h5, h6, h7⟩ := Tables.pairingOk_response t c hr hp
+    have hrm := Tables.mem_classes_of_cls? t h2
+    obtain ⟨ri', r', g1, g2, g3, g4, g5, g6, g7⟩ :=
+      Tables.pairingOk_request t r h3 (Tables.c08_class t h r hrm).2
+    have : t.requestFromResponse r' = t.requestFromResponse c :=
+      Tables.requestFromResponse_congr t (g4.trans h4) (g6.trans h6)
+    rw [this, h1] at g7
+    injection g7 with g7
+    subst g7
+    exact ⟨r, h1, h2, h3, h4, h5, h6, h7⟩
 
 /-! ### C09 read as a proposition -/
 
@@ -75,12 +311,43 @@ theorem Tables.c08_response (t : Tables) (h : t.c08 = true) (c : ClassInfo) (hc 
 theorem Tables.c09_module (t : Tables) (h : t.c09 = true) (m : ModuleInfo) (hm : m ∈ t.modules) :
     t.loadEntityModule m.key.api m.key.version m.key.kind = .ok m.key ∧
     t.loadEntitySchema m.key.api m.key.version m.key.kind = .ok m.top := by
-  sorry
+  unfold Tables.c09 at h
+  simp only [Bool.and_eq_true] at h
+  have hmi := (Tables.allModules_iff t _).1 h.1.1.1.1.1 m hm
+  unfold Tables.moduleIndexed at hmi
+  unfold Tables.loadEntityModule Tables.loadEntitySchema
+  split at hmi
+  · next leaf hl =>
+    rw [hl]
+    simp only [Bool.and_eq_true, beq_iff_eq] at hmi
+    obtain ⟨h1, h2⟩ := hmi
+    split at h1
+    · next k hk =>
+      have := ModKey.eq_of_beq h1
+      subst this
+      simp [bind, Except.bind, hk, h2, pure, Except.pure]
+    · cases h1
+  · cases hmi
+
+theorem snd_nodup_inj : ∀ (l : List (Int × Nat)), (l.map (·.2)).Nodup → ∀ a b n, (a, n) ∈ l → (b, n) ∈ l → a = b
+  | [], _, _, _, _, h, _ => by cases h
+  | x :: l, hn, a, b, n, ha, hb => by
+    simp only [List.map_cons, List.nodup_cons, List.mem_map, not_exists, not_and] at hn
+    rcases List.mem_cons.1 ha with ha' | ha' <;> rcases List.mem_cons.1 hb with hb' | hb'
+    · rw [← ha'] at hb'; injection hb' with hb'; exact hb'.symm
+    · subst ha'; exact absurd rfl (hn.1 (b, n) hb')
+    · subst hb'; exact absurd rfl (hn.1 (a, n) ha')
+    · exact snd_nodup_inj l hn.2 a b n ha' hb'
 
 /-- API keys map one-to-one to API names -/
 theorem Tables.c09_keys_injective (t : Tables) (h : t.c09 = true) (k₁ k₂ : Int) (n : Nat)
     (h₁ : t.nameFromKey k₁ = .ok n) (h₂ : t.nameFromKey k₂ = .ok n) : k₁ = k₂ := by
-  sorry
+  unfold Tables.c09 at h
+  simp only [Bool.and_eq_true] at h
+  have hk := h.1.1.2
+  unfold Tables.keysOk at hk
+  simp only [Bool.and_eq_true, decide_eq_true_eq] at hk
+  exact snd_nodup_inj _ hk.1.1.2 _ _ n (Tables.nameFromKey_ok _ _ _ h₁) (Tables.nameFromKey_ok _ _ _ h₂)
 
 /-! ### C15 read as a proposition -/
 
@@ -88,6 +355,15 @@ theorem Tables.c15_class (t : Tables) (h : t.c15 = true) (c : ClassInfo) (hc : c
     ∃ p, c.params = some p ∧ p.frozen = true ∧ p.eq = true ∧ p.slots = true ∧ p.unsafeHash = false ∧
       c.hasSlots = true ∧ c.hasDict = false ∧ c.hashable = true ∧
       ∀ f ∈ c.fields, f.immutableType = true ∧ f.compare = true := by
-  sorry
+  have hv := (Tables.allClasses_iff t _).1 h c hc
+  unfold ClassInfo.valueObject at hv
+  simp only [Bool.and_eq_true, Bool.not_eq_true', List.all_eq_true] at hv
+  obtain ⟨⟨⟨⟨hp, h1⟩, h2⟩, h3⟩, h4⟩ := hv
+  split at hp
+  · next p hpe =>
+    simp only [Bool.and_eq_true, Bool.not_eq_true'] at hp
+    exact ⟨p, hpe, hp.1.1.1.1.1, hp.1.1.1.1.2, hp.1.1.1.2, hp.1.1.2, h1, h2, h3,
+      fun f hf => ⟨(h4 f hf).1.1.1, (h4 f hf).1.1.2⟩⟩
+  · cases hp
 
 end Kio
